@@ -308,10 +308,15 @@ def evaluate(spec, ctx):
                 pages2 = core.read_tree(base, out)
                 if r2.status != 0:
                     viols.append(viol("rerun-after-crash-failed", f"{where}: status {r2.status} exc {r2.exc}"))
-                elif ref_pages is not None and pages2 != ref_pages:
-                    diff = sorted(k for k in set(pages2) | set(ref_pages) if pages2.get(k) != ref_pages.get(k))
-                    viols.append(viol("rerun-after-crash-incomplete",
-                                      f"{where}: killed at {res.fired}; after re-running, {diff[:5]} differ from the fault-free tree"))
+                elif ref_pages is not None:
+                    # every page of the fault-free tree must be there, complete; leftovers of the killed run that the
+                    # re-run did not create itself (e.g. a temporary file of an atomic writer) are not its business
+                    diff = sorted(k for k in ref_pages if pages2.get(k) != ref_pages[k])
+                    new_extra = sorted(k for k in pages2 if k not in ref_pages and k not in pages)
+                    if diff or new_extra:
+                        viols.append(viol("rerun-after-crash-incomplete",
+                                          f"{where}: killed at {res.fired}; after re-running, {(diff + new_extra)[:5]} differ from "
+                                          f"the fault-free tree"))
             else:
                 # an I/O error was injected while output was in flight
                 if res.status == 0:
@@ -326,10 +331,11 @@ def evaluate(spec, ctx):
                                 break
                 else:
                     ctx.probes["fault_run_failed"] += 1
-                if not walk.ambiguous:
+                if not walk.ambiguous and res.status == 0:
+                    # a run that reports failure may leave a partial tree (incl. temporaries); one that claims success may not
                     extra = sorted(got - expected)
                     if extra:
-                        viols.append(viol("extra-output", f"{where}: under faults, unexpected files {extra[:6]}",
+                        viols.append(viol("extra-output", f"{where}: exit 0 after {res.fired} with unexpected files {extra[:6]}",
                                           kind="under-faults"))
             if viols:
                 break
